@@ -27,7 +27,8 @@ PURE_METHODS = {'get', 'keys', 'items', 'values', 'getfieldval', 'tell', 'format
                 'format_exc', 'log_name', 'compile', 'escape', 'singleton', 'closed', 'closedopen', 'empty', 'iterate',
                 'to_bytes', 'peek'}
 PURE_FUNCS = {'len', 'min', 'max', 'int', 'str', 'bool', 'bytes', 'bytearray', 'tuple', 'list', 'set', 'dict', 'sorted',
-              'enumerate', 'range', 'isinstance', 'repr', 'type', 'abs', 'id', 'print', 'getattr'}
+              'enumerate', 'range', 'isinstance', 'repr', 'type', 'abs', 'id', 'print', 'getattr', 'next', 'iter', 'zip',
+              'reversed', 'map', 'any', 'all', 'sum', 'hasattr'}
 
 
 class UnitResult:
